@@ -7,7 +7,7 @@ from rules import c09 as C09
 
 EXT = "model::structures::complex::import_extension_fields"
 CC = "model::structures::complex::read_complex_content_node"
-APPENDERS = ("import_sequence_node_fields", "import_choice_fields", "Vec::<T, A>::push", "Vec::<T, A>::extend",
+APPENDERS = ("import_sequence_node_fields", "import_choice_fields", "Vec::<T, A>::push", "Vec::<T, A>::extend", "iter::Extend::extend",
              "Vec::<T, A>::extend_from_slice", "Vec::<T, A>::append", "Vec::<T, A>::insert")
 
 
@@ -31,10 +31,11 @@ def run(ck, F):
     copies = []
     for bb, t in B.calls():
         d = M.Body.callee_decl(t) or ""
-        if d.endswith(("clone::Clone::clone_from",)) or d.endswith("Vec::<T, A>::extend") or d.endswith("extend_from_slice"):
+        if d.endswith(("clone::Clone::clone_from",)) or d.endswith(("Vec::<T, A>::extend", "iter::Extend::extend")) or d.endswith("extend_from_slice"):
             dst = M.trace(B, t["args"][0], ())
             if dst and all(o.kind == "arg" and o.local == 3 for o in dst):
-                src = M.trace(B, t["args"][1], M.IDENTITY_CALLS)
+                src = M.trace(B, t["args"][1], M.IDENTITY_CALLS + ("[T]>::iter", "Vec::<T, A>::iter", "iter::Iterator::cloned", "iter::Iterator::copied",
+                                                                     "IntoIterator::into_iter", "Vec::<T, A>::as_slice", "[T]>::to_vec"))
                 from_base = bool(src) and all("fields" in o.fields() for o in src)
                 if from_base:
                     copies.append((bb, t))
